@@ -11,7 +11,7 @@ def check(run, tier, seed, replay=None):
         C14.sliced_extra(run, tier, seed, "fault", ID_SLICE, replay, ID_SLICE_EQ)
         return
     setcheck.set_check(run, "C04", tier, seed, replay, 1200, 20000, "judge04g",
-                       "C04 delete issued before later phases are gone, or finalizer removed / Archived=True reported while objects are still controlled",
+                       "C04 delete issued before later phases are gone, or finalizer removed / Archived=True reported while objects are still controlled, or objects written before the finalizer is persisted",
                        "seeded random worlds biased to deleting and archived ObjectSets: members with finalizers that delay deletion, "
                        "already deleting, taken over by others, gone; orphan finalizer; finalizer already removed; plus the exhaustive "
                        "teardown table x third-party op between read and delete through the real TeardownPhase ('done' only if gone)",
